@@ -324,6 +324,8 @@ def merge(g, a, b):
             if x is y or (not is_z3(x) and not isinstance(x, (VStruct, VEnum, VRef, VSeq, VArr, VStr, VMap, VClosure, VIter)) and x == y):
                 d[k] = x
             else:
+                if isinstance(x, (int, str, bool)) or isinstance(y, (int, str, bool)):
+                    return VPoison("merge of iterators at different positions")
                 m = merge(g, x, y)
                 if isinstance(m, VPoison):
                     return m
